@@ -34,7 +34,15 @@ def generate(ctx: Ctx, seed_offset=0):
         ctx, 'store/StoreGen', 'store/Sim_Store.cfg', workers=1, simulate=f'num={nb}', depth=18, seed=ctx.seed + 1000 + seed_offset,
         sub={'Cap = 99': 'Cap = 2', 'MaxItems = 5': 'MaxItems = 4'},
     )
-    return gen['emitted'], sim['emitted'], simcap['emitted']
+    # families with a forced prologue: an in-memory store filled to the capacity of its cache (C07), an identified
+    # file opened for appending followed by every sequence of look-ups / identified additions / syncs (C08)
+    fam_mem, fam_lookup = [], []
+    if ctx.pid == 'C07':
+        fam_mem = tlc.check(ctx, 'store/StoreGen', 'store/Gen_StoreMem.cfg', sub=None if ctx.quick else {'D = 3': 'D = 4'})['emitted']
+    if ctx.pid == 'C08':
+        fam_lookup = tlc.check(ctx, 'store/StoreGen', 'store/Gen_StoreLookup.cfg', sub=None if ctx.quick else {'D = 4': 'D = 5'})['emitted']
+    ctx.extra['family_histories'] = {'in_memory_at_capacity': len(fam_mem), 'lookup_after_open_append': len(fam_lookup)}
+    return gen['emitted'] + fam_lookup, sim['emitted'], simcap['emitted'] + fam_mem
 
 
 def run_store(ctx: Ctx, pid: str, seed_offset=0):
